@@ -338,6 +338,96 @@ def rw_sets(ci, mname):
     return W, R, None
 
 
+class _Seq:
+    """sequential composition by contract, for pairs of builder methods whose read/write sets overlap: the strongest
+    truthiness post-condition of one method (slots it assigns on every returning path) is the pre-condition under
+    which the other is executed"""
+
+    def __init__(self, ci):
+        self.ci = ci
+        self.posts = {}
+        self.rej = {}
+
+    def post(self, m):
+        """{slot: True/False}: on every returning path m assigns the slot a value that is provably truthy / falsy;
+        None when m is outside the executor's subset; also whether m has a raising path at all"""
+        if m in self.posts:
+            return self.posts[m]
+        import z3
+        from . import c01
+        fi = self.ci.resolve(m)[1]
+        run = run_function(fi, self.ci, undecorated=True, pre=c01._pre)
+        if run.error:
+            self.posts[m] = None
+            return None
+        ex = run.ex
+        per_path = []
+        for o in run.outcomes:
+            if o.status == "raise":
+                continue
+            ex.st = o.state
+            last = {}
+            for w in o.state.writes:
+                if w.path == "self" and w.kind == "attr":
+                    last[w.attr] = w
+            facts = {}
+            for a, w in last.items():
+                if w.guard is not None and not ex.smt.implied(o.state.pc, w.guard):
+                    continue
+                t = ex.truth(w.value)
+                if ex.smt.implied(o.state.pc, t):
+                    facts[a] = True
+                elif ex.smt.implied(o.state.pc, z3.Not(t)):
+                    facts[a] = False
+            per_path.append(facts)
+        common = {}
+        if per_path:
+            for a in set.intersection(*[set(f) for f in per_path]):
+                vals = {f[a] for f in per_path}
+                if len(vals) == 1:
+                    common[a] = vals.pop()
+        self.posts[m] = (common, any(o.status == "raise" for o in run.outcomes), bool(per_path))
+        return self.posts[m]
+
+    def rejects_after(self, m, w):
+        """every path of m raises when it starts in a state that satisfies w's post-condition (non-vacuously)"""
+        if (m, w) in self.rej:
+            return self.rej[(m, w)]
+        import ast
+        import z3
+        from . import c01
+        from ..state import Frame
+        pw = self.post(w)
+        pm = self.post(m)
+        res = False
+        if pw and pm and pw[0] and pm[1] and pw[2]:
+            ci = self.ci
+            facts = pw[0]
+
+            def pre(ex, self_obj, params):
+                c01._pre(ex, self_obj, params)
+                for slot, val in sorted(facts.items()):
+                    node = ast.parse(f"self.{slot}", mode="eval").body
+                    ex.frames.append(Frame(None, ci, {"self": self_obj}, self_obj, ci.module))
+                    try:
+                        v = ex.eval(node)
+                    finally:
+                        ex.frames.pop()
+                    t = ex.truth(v)
+                    ex.st.pc.append(t if val else z3.Not(t))
+            run = run_function(ci.resolve(m)[1], ci, undecorated=True, pre=pre)
+            if not run.error and run.outcomes and all(o.status == "raise" for o in run.outcomes) and \
+                    any(run.ex.smt.feasible(o.state.pc) for o in run.outcomes):
+                res = sorted(facts.items())
+        self.rej[(m, w)] = res
+        return res
+
+    def both_reject(self, m, w):
+        a = self.rejects_after(m, w)
+        b = a and self.rejects_after(w, m)
+        return (a, b) if a and b else None
+
+
 def check_commute(cq):
     """commute/reads, commute/writes: Bernstein's conditions between builder methods that address different clauses -
     a method reads no slot that a method of another clause writes, and two methods of different clauses write no
@@ -411,6 +501,29 @@ def check_commute(cq):
                     pending.append(ob)
     # Bernstein's conditions are sufficient, not necessary: where they fail, a bounded search for two call orders that
     # render differently decides between a violation (with the failing input) and a bounded stand-in
+    # ... nor necessary.  First a deductive refinement: if m raises on every path once w has run (executed under w's
+    # post-condition) and w raises on every path once m has run, both call orders are rejected on every pre-state -
+    # the two calls commute (neither order produces SQL)
+    seq = _Seq(ci)
+    still = []
+    for ob in pending:
+        parts = ob.key.split("|")
+        if ob.kind == "commute/reads":
+            m_, ws = parts[2], ob.witness["args"][3]
+        else:
+            m_, ws = parts[2], [parts[3]]
+        try:
+            proofs = [seq.both_reject(m_, w_) for w_ in ws]
+        except Exception as e:         # outside the executor's subset: stays with the bounded search
+            proofs = [None]
+        if ws and all(proofs):
+            ob.status, ob.reason, ob.backend = PROVED, "", "z3"
+            ob.detail += ("; both call orders are rejected on every pre-state: " + "; ".join(
+                f"{m_}() raises on every path under the post-condition of {w_}() {dict(pa)} and {w_}() raises on every "
+                f"path under the post-condition of {m_}() {dict(pb)}" for w_, (pa, pb) in zip(ws, proofs)))
+        else:
+            still.append(ob)
+    pending = still
     if pending:
         import json
         import subprocess
